@@ -110,7 +110,7 @@ def main():
             seeds.append((pid, int(k)))
     else:
         for i in range(1, 21):
-            for k in (1, 2, 3, 4):
+            for k in (1, 2, 3, 4, 5, 6):
                 if os.path.exists(os.path.join(SEED, "C%02d" % i, "patch%d.diff" % k)):
                     seeds.append(("C%02d" % i, k))
     with ThreadPoolExecutor(max_workers=5) as ex:
